@@ -1,7 +1,7 @@
 (* Isa/X86Proofs.v -- proofs about the mirror of the x86 lifter's helper layer (Isa/X86Lift.v) against the
    ISA specification (Isa/X86.v), in the reference IL semantics (Exec/Sem.v: den). *)
 From Coq Require Import ZArith List Bool NArith Lia ZifyBool.
-From Falcon Require Import Base.Res IL.Const IL.ConstSpec IL.Expr IL.ExprSpec IL.Func Exec.Sem Isa.X86 Isa.X86Lift.
+From Falcon Require Import Base.Res IL.Const IL.ConstSpec IL.Expr IL.ExprSpec IL.Func Exec.Sem Isa.X86 Isa.X86Lift Isa.X86Mirror.
 Import ListNotations.
 Local Open Scope Z_scope.
 Ltac Zify.zify_post_hook ::= Z.div_mod_to_equations.
@@ -348,3 +348,667 @@ Proof.
     cbn; unfold of_value, s_shr, s_and, s_xor, U; cbn; reflexivity.
 Qed.
 End FlagHelpers.
+
+(* ---------- one form end to end at the level of the emitted operation: mov r, r ---------- *)
+Lemma arch_read_range s fbits x : shape_valid fbits s -> 0 <= x < 2 ^ fbits ->
+  0 <= arch_read s fbits x < 2 ^ shape_bits fbits s.
+Proof.
+  intros [[->| ->] Hs] Hx; destruct s; try (specialize (Hs eq_refl); discriminate);
+    unfold arch_read, X86.reg_read, X86.regh_read, X86.rget; cbn [shape_bits Z.to_nat nth];
+    try (apply Z.mod_pos_bound; reflexivity).
+Qed.
+
+Lemma reg_get_bits n fbits s e : shape_valid fbits s -> reg_get (xreg_of n fbits s) = Ok e -> e_bits e = shape_bits fbits s.
+Proof.
+  intros [[->| ->] Hs] H; destruct s; try (specialize (Hs eq_refl); discriminate); cbv in H; inversion H; reflexivity.
+Qed.
+
+(* mov dst, src between (sub-)registers of equal size: the single assignment the builder emits gives the
+   destination's full register exactly the architectural value, for all register contents; dst = src and
+   dst/src in the same full register (mov ah, al) included *)
+Theorem mov_reg_reg_correct en nd ns fbits sd ss xd xs :
+  shape_valid fbits sd -> shape_valid fbits ss -> shape_bits fbits sd = shape_bits fbits ss ->
+  0 <= xd < 2 ^ fbits -> 0 <= xs < 2 ^ fbits ->
+  env_get en (nd, None) = Some (mkc fbits xd) -> env_get en (ns, None) = Some (mkc fbits xs) ->
+  exists ev e,
+    reg_get (xreg_of ns fbits ss) = Ok ev /\
+    reg_set (xreg_of nd fbits sd) ev = Ok [OAssign (mks nd fbits None) e] /\
+    exec_op (mkst en (mkbmem false [])) (OAssign (mks nd fbits None) e) =
+      Ok (mkst (env_set en (nd, None) (mkc fbits (arch_write sd fbits xd (arch_read ss fbits xs)))) (mkbmem false []),
+          EvAssign (nd, None) (mkc fbits (arch_write sd fbits xd (arch_read ss fbits xs)))).
+Proof.
+  intros Hd Hs Hb Hxd Hxs Ed Es.
+  destruct (reg_get_correct en ns fbits ss xs Hs Hxs Es) as (ev & Gv & Dv).
+  assert (Bv: e_bits ev = shape_bits fbits sd) by (rewrite Hb; eapply reg_get_bits; eassumption).
+  pose proof (arch_read_range ss fbits xs Hs Hxs) as Rv. rewrite <- Hb in Rv, Dv.
+  destruct (reg_set_correct en nd fbits sd xd ev _ Hd Hxd Rv Ed Bv Dv) as (e & Se & De).
+  exists ev, e. split; [exact Gv|]. split; [exact Se|].
+  unfold exec_op. cbn [st_env st_mem]. rewrite De. cbn [bind]. unfold skey_of. cbn [sname sssa]. reflexivity.
+Qed.
+
+(* the same statement for the mirrored builder [X86Mirror.lift_mov] (the graph it returns is tied
+   syntactically to the real lifter's output on every run) *)
+Definition size_shape (m : mode) (sz : Z) : option shape :=
+  if sz =? wordsz m then Some ShFull
+  else if sz =? 8 then Some ShLow8 else if sz =? 16 then Some ShLow16
+  else if (sz =? 32) && (wordsz m =? 64) then Some ShLow32 else None.
+Definition operand_shape (m : mode) (sz : Z) (o : operand) : option (N * shape) :=
+  match o with
+  | OReg r => option_map (fun s => (full_name m r, s)) (size_shape m sz)
+  | ORegH r => if sz =? 8 then Some (full_name m r, ShHigh8) else None
+  | _ => None
+  end.
+Lemma operand_shape_xreg m sz o n s : operand_shape m sz o = Some (n, s) ->
+  xreg_for m sz o = Some (xreg_of n (wordsz m) s) /\ shape_valid (wordsz m) s /\ shape_bits (wordsz m) s = sz.
+Proof.
+  destruct o as [r|r| | ]; cbn [operand_shape]; try discriminate.
+  - unfold size_shape.
+    assert (V: forall s0, shape_valid (wordsz m) s0 <-> (s0 = ShLow32 -> wordsz m = 64)) by (intros s0; unfold shape_valid; destruct m; cbn; tauto).
+    destruct (Z.eqb_spec sz (wordsz m)) as [E|NE].
+    { intros H; inversion H; subst n s. rewrite E. split; [|split; [apply V; discriminate|reflexivity]].
+      unfold xreg_for, xreg_of. cbn [shape_offset shape_bits]. rewrite Z.eqb_refl. reflexivity. }
+    destruct (Z.eqb_spec sz 8) as [E8|N8].
+    { intros H; inversion H; subst n s sz. split; [|split; [apply V; discriminate|reflexivity]].
+      unfold xreg_for, xreg_of. cbn [shape_offset shape_bits]. destruct m; reflexivity. }
+    destruct (Z.eqb_spec sz 16) as [E16|N16].
+    { intros H; inversion H; subst n s sz. split; [|split; [apply V; discriminate|reflexivity]].
+      unfold xreg_for, xreg_of. cbn [shape_offset shape_bits]. destruct m; reflexivity. }
+    destruct (Z.eqb_spec sz 32) as [E32|N32]; cbn [andb]; [|discriminate].
+    destruct (Z.eqb_spec (wordsz m) 64) as [E64|N64]; [|discriminate].
+    intros H; inversion H; subst n s sz. split; [|split; [apply V; intros _; exact E64|reflexivity]].
+    unfold xreg_for, xreg_of. cbn [shape_offset shape_bits]. destruct m; [discriminate|reflexivity].
+  - destruct (Z.eqb_spec sz 8); [|discriminate]. subst. intros H; inversion H; subst.
+    split; [reflexivity|]. split; [|reflexivity]. split; [destruct m; cbn; tauto|discriminate].
+Qed.
+
+Theorem lift_mov_reg_reg_correct m sz dst src en nd ns sd ss xd xs :
+  operand_shape m sz dst = Some (nd, sd) -> operand_shape m sz src = Some (ns, ss) ->
+  0 <= xd < 2 ^ wordsz m -> 0 <= xs < 2 ^ wordsz m ->
+  env_get en (nd, None) = Some (mkc (wordsz m) xd) -> env_get en (ns, None) = Some (mkc (wordsz m) xs) ->
+  exists e,
+    lift_mov m sz dst src = Ok [OAssign (mks nd (wordsz m) None) e] /\
+    exec_op (mkst en (mkbmem false [])) (OAssign (mks nd (wordsz m) None) e) =
+      Ok (mkst (env_set en (nd, None) (mkc (wordsz m) (arch_write sd (wordsz m) xd (arch_read ss (wordsz m) xs)))) (mkbmem false []),
+          EvAssign (nd, None) (mkc (wordsz m) (arch_write sd (wordsz m) xd (arch_read ss (wordsz m) xs)))).
+Proof.
+  intros Od Os Hxd Hxs Ed Es.
+  destruct (operand_shape_xreg _ _ _ _ _ Od) as (Xd & Vd & Bd).
+  destruct (operand_shape_xreg _ _ _ _ _ Os) as (Xs & Vs & Bs).
+  destruct (mov_reg_reg_correct en nd ns (wordsz m) sd ss xd xs Vd Vs (eq_trans Bd (eq_sym Bs)) Hxd Hxs Ed Es)
+    as (ev & e & Gv & Se & Ex).
+  exists e. split; [|exact Ex].
+  unfold lift_mov, opv, ops_store. rewrite Xd.
+  destruct src as [r|r| |v]; cbn [operand_shape] in Os; try discriminate; rewrite Xs, Gv; cbn [bind]; exact Se.
+Qed.
+
+(* ---------- straight-line execution and environment lemmas ---------- *)
+Fixpoint exec_ops (st : sstate) (ops : list operation) : res sstate :=
+  match ops with
+  | [] => Ok st
+  | o :: t => r <- exec_op st o ;; exec_ops (fst r) t
+  end.
+
+Lemma skey_eqb_eq a b : skey_eqb a b = true <-> a = b.
+Proof.
+  destruct a as [n s], b as [n' s']. unfold skey_eqb. cbn [fst snd]. rewrite andb_true_iff, N.eqb_eq.
+  destruct s as [x|], s' as [y|]; cbn; rewrite ?N.eqb_eq; split; intros H; try (destruct H; congruence); try (inversion H; subst; split; reflexivity).
+Qed.
+Lemma env_get_set_same en k v : env_get (env_set en k v) k = Some v.
+Proof.
+  induction en as [|[k' v'] t IH]; cbn.
+  - assert (E: skey_eqb k k = true) by (apply skey_eqb_eq; reflexivity). rewrite E. reflexivity.
+  - destruct (skey_eqb k' k) eqn:E; cbn.
+    + assert (E2: skey_eqb k k = true) by (apply skey_eqb_eq; reflexivity). rewrite E2. reflexivity.
+    + rewrite E. exact IH.
+Qed.
+Lemma env_get_set_other en k k' v : k' <> k -> env_get (env_set en k v) k' = env_get en k'.
+Proof.
+  intros N. induction en as [|[k0 v0] t IH]; cbn.
+  - destruct (skey_eqb k k') eqn:E; [apply skey_eqb_eq in E; congruence|reflexivity].
+  - destruct (skey_eqb k0 k) eqn:E; cbn.
+    + apply skey_eqb_eq in E. subst k0.
+      destruct (skey_eqb k k') eqn:E2; [apply skey_eqb_eq in E2; congruence|reflexivity].
+    + destruct (skey_eqb k0 k'); [reflexivity|exact IH].
+Qed.
+
+(* an assignment to a scalar the expression does not mention leaves its denotation unchanged *)
+Fixpoint mentions (k : skey) (e : expr) : bool :=
+  match e with
+  | EScalar s => skey_eqb (skey_of s) k
+  | EConst _ => false
+  | EBin _ l r => mentions k l || mentions k r
+  | EExt _ _ x => mentions k x
+  | EIte c t f => mentions k c || mentions k t || mentions k f
+  end.
+Lemma den_env_set en k v e : mentions k e = false -> den (env_set en k v) e = den en e.
+Proof.
+  induction e as [s|c|o l IHl r IHr|o bits x IHx|c IHc t IHt f IHf]; cbn [mentions den]; intros H.
+  - rewrite env_get_set_other; [reflexivity|]. intros E. rewrite E in H.
+    assert (T: skey_eqb k k = true) by (apply skey_eqb_eq; reflexivity). congruence.
+  - reflexivity.
+  - apply orb_false_iff in H. destruct H as [Hl Hr]. rewrite IHl, IHr by assumption. reflexivity.
+  - rewrite IHx by assumption. reflexivity.
+  - apply orb_false_iff in H. destruct H as [H Hf]. apply orb_false_iff in H. destruct H as [Hc Ht].
+    rewrite IHc, IHt, IHf by assumption. reflexivity.
+Qed.
+
+Lemma exec_assign st s e v : den (st_env st) e = Ok v ->
+  exec_op st (OAssign s e) = Ok (mkst (env_set (st_env st) (skey_of s) v) (st_mem st), EvAssign (skey_of s) v).
+Proof. intros H. unfold exec_op. rewrite H. reflexivity. Qed.
+
+(* names of architectural registers as interned by the harness: never a flag or a temporary *)
+Definition reg_name_ok (n : N) : bool := (n <? 32)%N || ((37 <? n)%N && (n <? 52)%N).
+
+Definition kT0 : skey := (53%N, None).
+Definition kZF : skey := (X86Lift.n_ZF, None). Definition kSF : skey := (X86Lift.n_SF, None).
+Definition kOF : skey := (X86Lift.n_OF, None). Definition kCF : skey := (X86Lift.n_CF, None).
+Definition clean (e : expr) : bool :=
+  negb (mentions kT0 e || mentions kZF e || mentions kSF e || mentions kOF e || mentions kCF e).
+
+(* add dst, src with a register destination (any sub-register kind) and any source expression that does not
+   mention flags/temporaries (register or immediate operand): the seven operations of the builder, run in
+   sequence, leave exactly the architectural result and flags (X86.alu AAdd). *)
+Theorem add_reg_ops_correct st m sz dst nd sd xd lhs rhs b :
+  operand_shape m sz dst = Some (nd, sd) -> reg_name_ok nd = true -> width_ok sz ->
+  0 <= xd < 2 ^ wordsz m -> env_get (st_env st) (nd, None) = Some (mkc (wordsz m) xd) ->
+  opv m sz dst = Ok lhs ->
+  e_bits rhs = sz -> 0 <= b < 2 ^ sz -> den (st_env st) rhs = Ok (mkc sz b) -> clean rhs = true ->
+  let a := arch_read sd (wordsz m) xd in
+  let r := U sz (a + b) in
+  exists ops st',
+    lift_alu m AAdd sz dst (OImm 0) <> None /\
+    (e <- mk_bin Add lhs rhs ;; zf <- set_zf (EScalar (temp_k 0 sz)) ;; sf <- set_sf (EScalar (temp_k 0 sz)) ;;
+     of <- set_of (EScalar (temp_k 0 sz)) lhs rhs false ;; c <- mk_bin Cmpltu (EScalar (temp_k 0 sz)) lhs ;;
+     s <- ops_store m sz dst (EScalar (temp_k 0 sz)) ;;
+     Ok ([OAssign (temp_k 0 sz) e; zf; sf; of; assign_flag X86Lift.n_CF c] ++ s)) = Ok ops /\
+    exec_ops st ops = Ok st' /\
+    st_mem st' = st_mem st /\
+    env_get (st_env st') (nd, None) = Some (mkc (wordsz m) (arch_write sd (wordsz m) xd r)) /\
+    env_get (st_env st') kZF = Some (mkc 1 (X86.b2z (r =? 0))) /\
+    env_get (st_env st') kSF = Some (mkc 1 (X86.b2z (X86.msb sz r))) /\
+    env_get (st_env st') kOF = Some (mkc 1 (X86.b2z (X86.sovf sz (X86.Sg sz a + X86.Sg sz b)))) /\
+    env_get (st_env st') kCF = Some (mkc 1 (X86.b2z (2 ^ sz <=? a + b))).
+Proof.
+  intros Od Nok Hw Hxd Ed Ol Br Hb Dr Cr a r.
+  destruct (operand_shape_xreg _ _ _ _ _ Od) as (Xd & Vd & Bd).
+  set (en := st_env st) in *.
+  (* the destination read *)
+  assert (Gl: reg_get (xreg_of nd (wordsz m) sd) = Ok lhs).
+  { unfold opv in Ol. rewrite Xd in Ol. destruct dst; cbn [operand_shape] in Od; try discriminate; exact Ol. }
+  destruct (reg_get_correct en nd (wordsz m) sd xd Vd Hxd Ed) as (lhs' & Gl' & Dl). rewrite Gl in Gl'. inversion Gl'; subst lhs'. clear Gl'.
+  rewrite Bd in Dl. fold a in Dl.
+  assert (Bl: e_bits lhs = sz) by (rewrite <- Bd; eapply reg_get_bits; eassumption).
+  assert (Ha: 0 <= a < 2 ^ sz) by (unfold a; rewrite <- Bd; apply arch_read_range; assumption).
+  assert (Hr: 0 <= r < 2 ^ sz) by (unfold r, U; apply Z.mod_pos_bound; destruct Hw as [->|[->|[->| ->]]]; reflexivity).
+  (* lhs mentions only the register nd *)
+  assert (Ml: forall k, nd <> fst k -> mentions k lhs = false).
+  { intros k Hk. clear - Gl Hk Vd. destruct Vd as [[E|E] Hs]; rewrite E in Gl; destruct sd; try (specialize (Hs eq_refl); congruence);
+      cbv in Gl; inversion Gl; subst lhs; cbn [mentions]; unfold skey_of; cbn [sname sssa];
+      destruct (skey_eqb (nd, None) k) eqn:Q; try reflexivity; apply skey_eqb_eq in Q; subst k; cbn in Hk; congruence. }
+  assert (Nn: nd <> 53%N /\ nd <> X86Lift.n_ZF /\ nd <> X86Lift.n_SF /\ nd <> X86Lift.n_OF /\ nd <> X86Lift.n_CF).
+  { unfold reg_name_ok in Nok. unfold X86Lift.n_ZF, X86Lift.n_SF, X86Lift.n_OF, X86Lift.n_CF.
+    repeat split; intros ->; cbn in Nok; discriminate. }
+  destruct Nn as (N0 & N1 & N2 & N3 & N4).
+  unfold clean in Cr. apply negb_true_iff in Cr. repeat (apply orb_false_iff in Cr; destruct Cr as [Cr ?]).
+  (* 1. t0 := lhs + rhs *)
+  set (t0 := temp_k 0 sz). set (T := EScalar t0).
+  assert (E1: mk_bin Add lhs rhs = Ok (EBin Add lhs rhs)) by (unfold mk_bin; rewrite Bl, Br, Z.eqb_refl; reflexivity).
+  assert (D1: den en (EBin Add lhs rhs) = Ok (mkc sz r)).
+  { cbn [den]. rewrite Dl, Dr. cbn [bind]. unfold sp_bin_c. cbn [cbits cval]. rewrite Z.eqb_refl. reflexivity. }
+  set (e1 := env_set en kT0 (mkc sz r)).
+  assert (KT: skey_of t0 = kT0) by reflexivity.
+  assert (BT: e_bits T = sz) by reflexivity.
+  assert (DT: forall en', env_get en' kT0 = Some (mkc sz r) -> den en' T = Ok (mkc sz r)).
+  { intros en' G. cbn [den T]. rewrite KT, G. cbn [cbits t0 temp_k sbits]. rewrite Z.eqb_refl. reflexivity. }
+  assert (G1: env_get e1 kT0 = Some (mkc sz r)) by apply env_get_set_same.
+  assert (L1: den e1 lhs = Ok (mkc sz a)) by (unfold e1; rewrite den_env_set; [exact Dl|apply Ml; exact N0]).
+  assert (R1: den e1 rhs = Ok (mkc sz b)) by (unfold e1; rewrite den_env_set; assumption).
+  (* 2. ZF *)
+  destruct (set_zf_den e1 sz r T BT (DT e1 G1)) as (zfe & Zf & Dz).
+  set (e2 := env_set e1 kZF (mkc 1 (X86.b2z (r =? 0)))).
+  assert (G2: env_get e2 kT0 = Some (mkc sz r)) by (unfold e2; rewrite env_get_set_other; [exact G1|discriminate]).
+  assert (L2: den e2 lhs = Ok (mkc sz a)) by (unfold e2; rewrite den_env_set; [exact L1|apply Ml; exact N1]).
+  assert (R2: den e2 rhs = Ok (mkc sz b)) by (unfold e2; rewrite den_env_set; assumption).
+  (* 3. SF *)
+  destruct (set_sf_den e2 sz a b r lhs rhs T Hw Ha Hb Hr Bl Br BT L2 R2 (DT e2 G2)) as (sfe & Sf & Ds).
+  set (e3 := env_set e2 kSF (mkc 1 (X86.b2z (X86.msb sz r)))).
+  assert (G3: env_get e3 kT0 = Some (mkc sz r)) by (unfold e3; rewrite env_get_set_other; [exact G2|discriminate]).
+  assert (L3: den e3 lhs = Ok (mkc sz a)) by (unfold e3; rewrite den_env_set; [exact L2|apply Ml; exact N2]).
+  assert (R3: den e3 rhs = Ok (mkc sz b)) by (unfold e3; rewrite den_env_set; assumption).
+  (* 4. OF *)
+  destruct (set_of_den e3 sz a b r lhs rhs T Hw Ha Hb Hr Bl Br BT L3 R3 (DT e3 G3) false) as (ofe & Of & Do).
+  pose proof (of_add_correct sz a b Hw Ha Hb) as OA. fold r in OA. rewrite OA in Do.
+  set (e4 := env_set e3 kOF (mkc 1 (X86.b2z (X86.sovf sz (X86.Sg sz a + X86.Sg sz b))))).
+  assert (G4: env_get e4 kT0 = Some (mkc sz r)) by (unfold e4; rewrite env_get_set_other; [exact G3|discriminate]).
+  assert (L4: den e4 lhs = Ok (mkc sz a)) by (unfold e4; rewrite den_env_set; [exact L3|apply Ml; exact N3]).
+  (* 5. CF := t0 <u lhs *)
+  assert (E5: mk_bin Cmpltu T lhs = Ok (EBin Cmpltu T lhs)) by (unfold mk_bin; rewrite BT, Bl, Z.eqb_refl; reflexivity).
+  assert (D5: den e4 (EBin Cmpltu T lhs) = Ok (mkc 1 (X86.b2z (2 ^ sz <=? a + b)))).
+  { cbn [den]. rewrite (DT e4 G4), L4. cbn [bind]. unfold sp_bin_c. cbn [cbits cval]. rewrite Z.eqb_refl. cbn [negb sp_bin].
+    unfold s_cmpltu. pose proof (cf_add_correct sz a b Hw Ha Hb) as CA. fold r in CA. rewrite CA. destruct (2 ^ sz <=? a + b); reflexivity. }
+  set (e5 := env_set e4 kCF (mkc 1 (X86.b2z (2 ^ sz <=? a + b)))).
+  assert (G5: env_get e5 kT0 = Some (mkc sz r)) by (unfold e5; rewrite env_get_set_other; [exact G4|discriminate]).
+  (* 6. the destination write *)
+  assert (Ed5: env_get e5 (nd, None) = Some (mkc (wordsz m) xd)).
+  { unfold e5, e4, e3, e2, e1. rewrite !env_get_set_other; [exact Ed| | | | |]; unfold kT0, kZF, kSF, kOF, kCF, X86Lift.n_ZF, X86Lift.n_SF, X86Lift.n_OF, X86Lift.n_CF in *; congruence. }
+  assert (Hr': 0 <= r < 2 ^ shape_bits (wordsz m) sd) by (rewrite Bd; exact Hr).
+  assert (BT': e_bits T = shape_bits (wordsz m) sd) by (rewrite Bd; exact BT).
+  assert (DT5: den e5 T = Ok (mkc (shape_bits (wordsz m) sd) r)) by (rewrite Bd; exact (DT e5 G5)).
+  destruct (reg_set_correct e5 nd (wordsz m) sd xd T r Vd Hxd Hr' Ed5 BT' DT5) as (we & Se & Dw).
+  set (e6 := env_set e5 (nd, None) (mkc (wordsz m) (arch_write sd (wordsz m) xd r))).
+  eexists. exists (mkst e6 (st_mem st)).
+  split; [cbn; discriminate|].
+  split.
+  { fold t0 T. rewrite E1. cbn [bind]. rewrite Zf. cbn [bind]. rewrite Sf. cbn [bind]. rewrite Of. cbn [bind].
+    rewrite E5. cbn [bind]. unfold ops_store. rewrite Xd, Se. cbn [bind]. reflexivity. }
+  split.
+  { cbn [exec_ops app].
+    rewrite (exec_assign st t0 _ _ D1). cbn [bind fst st_env st_mem]. fold en. rewrite KT. fold e1.
+    rewrite (exec_assign (mkst e1 _) _ _ _ Dz). cbn [bind fst st_env st_mem]. change (skey_of (flag_scalar X86Lift.n_ZF)) with kZF. fold e2.
+    rewrite (exec_assign (mkst e2 _) _ _ _ Ds). cbn [bind fst st_env st_mem]. change (skey_of (flag_scalar X86Lift.n_SF)) with kSF. fold e3.
+    rewrite (exec_assign (mkst e3 _) _ _ _ Do). cbn [bind fst st_env st_mem]. change (skey_of (flag_scalar X86Lift.n_OF)) with kOF. fold e4.
+    unfold assign_flag. rewrite (exec_assign (mkst e4 _) _ _ _ D5). cbn [bind fst st_env st_mem]. change (skey_of (flag_scalar X86Lift.n_CF)) with kCF. fold e5.
+    rewrite (exec_assign (mkst e5 _) _ _ _ Dw). cbn [bind fst st_env st_mem]. reflexivity. }
+  split; [reflexivity|]. cbn [st_env].
+  split; [apply env_get_set_same|].
+  unfold e6, e5, e4, e3, e2.
+  split; [rewrite !env_get_set_other by (unfold kT0, kZF, kSF, kOF, kCF, X86Lift.n_ZF, X86Lift.n_SF, X86Lift.n_OF, X86Lift.n_CF in *; congruence); apply env_get_set_same|].
+  split; [rewrite !env_get_set_other by (unfold kT0, kZF, kSF, kOF, kCF, X86Lift.n_ZF, X86Lift.n_SF, X86Lift.n_OF, X86Lift.n_CF in *; congruence); apply env_get_set_same|].
+  split; [rewrite !env_get_set_other by (unfold kT0, kZF, kSF, kOF, kCF, X86Lift.n_ZF, X86Lift.n_SF, X86Lift.n_OF, X86Lift.n_CF in *; congruence); apply env_get_set_same|].
+  rewrite !env_get_set_other by (unfold kT0, kZF, kSF, kOF, kCF, X86Lift.n_ZF, X86Lift.n_SF, X86Lift.n_OF, X86Lift.n_CF in *; congruence). apply env_get_set_same.
+Qed.
+
+(* sub dst, src: same statement for the subtraction builder (borrow form of CF via set_cf); source expression does not
+   mention flags/temporaries (register or immediate operand): the seven operations of the builder, run in
+   sequence, leave exactly the architectural result and flags (X86.alu AAdd). *)
+Theorem sub_reg_ops_correct st m sz dst nd sd xd lhs rhs b :
+  operand_shape m sz dst = Some (nd, sd) -> reg_name_ok nd = true -> width_ok sz ->
+  0 <= xd < 2 ^ wordsz m -> env_get (st_env st) (nd, None) = Some (mkc (wordsz m) xd) ->
+  opv m sz dst = Ok lhs ->
+  e_bits rhs = sz -> 0 <= b < 2 ^ sz -> den (st_env st) rhs = Ok (mkc sz b) -> clean rhs = true ->
+  let a := arch_read sd (wordsz m) xd in
+  let r := U sz (a - b) in
+  exists ops st',
+    lift_alu m ASub sz dst (OImm 0) <> None /\
+    (e <- mk_bin Sub lhs rhs ;; zf <- set_zf (EScalar (temp_k 0 sz)) ;; sf <- set_sf (EScalar (temp_k 0 sz)) ;;
+     of <- set_of (EScalar (temp_k 0 sz)) lhs rhs true ;; c <- set_cf (EScalar (temp_k 0 sz)) lhs ;;
+     s <- ops_store m sz dst (EScalar (temp_k 0 sz)) ;;
+     Ok ([OAssign (temp_k 0 sz) e; zf; sf; of; c] ++ s)) = Ok ops /\
+    exec_ops st ops = Ok st' /\
+    st_mem st' = st_mem st /\
+    env_get (st_env st') (nd, None) = Some (mkc (wordsz m) (arch_write sd (wordsz m) xd r)) /\
+    env_get (st_env st') kZF = Some (mkc 1 (X86.b2z (r =? 0))) /\
+    env_get (st_env st') kSF = Some (mkc 1 (X86.b2z (X86.msb sz r))) /\
+    env_get (st_env st') kOF = Some (mkc 1 (X86.b2z (X86.sovf sz (X86.Sg sz a - X86.Sg sz b)))) /\
+    env_get (st_env st') kCF = Some (mkc 1 (X86.b2z (a <? b))).
+Proof.
+  intros Od Nok Hw Hxd Ed Ol Br Hb Dr Cr a r.
+  destruct (operand_shape_xreg _ _ _ _ _ Od) as (Xd & Vd & Bd).
+  set (en := st_env st) in *.
+  (* the destination read *)
+  assert (Gl: reg_get (xreg_of nd (wordsz m) sd) = Ok lhs).
+  { unfold opv in Ol. rewrite Xd in Ol. destruct dst; cbn [operand_shape] in Od; try discriminate; exact Ol. }
+  destruct (reg_get_correct en nd (wordsz m) sd xd Vd Hxd Ed) as (lhs' & Gl' & Dl). rewrite Gl in Gl'. inversion Gl'; subst lhs'. clear Gl'.
+  rewrite Bd in Dl. fold a in Dl.
+  assert (Bl: e_bits lhs = sz) by (rewrite <- Bd; eapply reg_get_bits; eassumption).
+  assert (Ha: 0 <= a < 2 ^ sz) by (unfold a; rewrite <- Bd; apply arch_read_range; assumption).
+  assert (Hr: 0 <= r < 2 ^ sz) by (unfold r, U; apply Z.mod_pos_bound; destruct Hw as [->|[->|[->| ->]]]; reflexivity).
+  (* lhs mentions only the register nd *)
+  assert (Ml: forall k, nd <> fst k -> mentions k lhs = false).
+  { intros k Hk. clear - Gl Hk Vd. destruct Vd as [[E|E] Hs]; rewrite E in Gl; destruct sd; try (specialize (Hs eq_refl); congruence);
+      cbv in Gl; inversion Gl; subst lhs; cbn [mentions]; unfold skey_of; cbn [sname sssa];
+      destruct (skey_eqb (nd, None) k) eqn:Q; try reflexivity; apply skey_eqb_eq in Q; subst k; cbn in Hk; congruence. }
+  assert (Nn: nd <> 53%N /\ nd <> X86Lift.n_ZF /\ nd <> X86Lift.n_SF /\ nd <> X86Lift.n_OF /\ nd <> X86Lift.n_CF).
+  { unfold reg_name_ok in Nok. unfold X86Lift.n_ZF, X86Lift.n_SF, X86Lift.n_OF, X86Lift.n_CF.
+    repeat split; intros ->; cbn in Nok; discriminate. }
+  destruct Nn as (N0 & N1 & N2 & N3 & N4).
+  unfold clean in Cr. apply negb_true_iff in Cr. repeat (apply orb_false_iff in Cr; destruct Cr as [Cr ?]).
+  (* 1. t0 := lhs + rhs *)
+  set (t0 := temp_k 0 sz). set (T := EScalar t0).
+  assert (E1: mk_bin Sub lhs rhs = Ok (EBin Sub lhs rhs)) by (unfold mk_bin; rewrite Bl, Br, Z.eqb_refl; reflexivity).
+  assert (D1: den en (EBin Sub lhs rhs) = Ok (mkc sz r)).
+  { cbn [den]. rewrite Dl, Dr. cbn [bind]. unfold sp_bin_c. cbn [cbits cval]. rewrite Z.eqb_refl. reflexivity. }
+  set (e1 := env_set en kT0 (mkc sz r)).
+  assert (KT: skey_of t0 = kT0) by reflexivity.
+  assert (BT: e_bits T = sz) by reflexivity.
+  assert (DT: forall en', env_get en' kT0 = Some (mkc sz r) -> den en' T = Ok (mkc sz r)).
+  { intros en' G. cbn [den T]. rewrite KT, G. cbn [cbits t0 temp_k sbits]. rewrite Z.eqb_refl. reflexivity. }
+  assert (G1: env_get e1 kT0 = Some (mkc sz r)) by apply env_get_set_same.
+  assert (L1: den e1 lhs = Ok (mkc sz a)) by (unfold e1; rewrite den_env_set; [exact Dl|apply Ml; exact N0]).
+  assert (R1: den e1 rhs = Ok (mkc sz b)) by (unfold e1; rewrite den_env_set; assumption).
+  (* 2. ZF *)
+  destruct (set_zf_den e1 sz r T BT (DT e1 G1)) as (zfe & Zf & Dz).
+  set (e2 := env_set e1 kZF (mkc 1 (X86.b2z (r =? 0)))).
+  assert (G2: env_get e2 kT0 = Some (mkc sz r)) by (unfold e2; rewrite env_get_set_other; [exact G1|discriminate]).
+  assert (L2: den e2 lhs = Ok (mkc sz a)) by (unfold e2; rewrite den_env_set; [exact L1|apply Ml; exact N1]).
+  assert (R2: den e2 rhs = Ok (mkc sz b)) by (unfold e2; rewrite den_env_set; assumption).
+  (* 3. SF *)
+  destruct (set_sf_den e2 sz a b r lhs rhs T Hw Ha Hb Hr Bl Br BT L2 R2 (DT e2 G2)) as (sfe & Sf & Ds).
+  set (e3 := env_set e2 kSF (mkc 1 (X86.b2z (X86.msb sz r)))).
+  assert (G3: env_get e3 kT0 = Some (mkc sz r)) by (unfold e3; rewrite env_get_set_other; [exact G2|discriminate]).
+  assert (L3: den e3 lhs = Ok (mkc sz a)) by (unfold e3; rewrite den_env_set; [exact L2|apply Ml; exact N2]).
+  assert (R3: den e3 rhs = Ok (mkc sz b)) by (unfold e3; rewrite den_env_set; assumption).
+  (* 4. OF *)
+  destruct (set_of_den e3 sz a b r lhs rhs T Hw Ha Hb Hr Bl Br BT L3 R3 (DT e3 G3) true) as (ofe & Of & Do).
+  pose proof (of_sub_correct sz a b Hw Ha Hb) as OA. fold r in OA. rewrite OA in Do.
+  set (e4 := env_set e3 kOF (mkc 1 (X86.b2z (X86.sovf sz (X86.Sg sz a - X86.Sg sz b))))).
+  assert (G4: env_get e4 kT0 = Some (mkc sz r)) by (unfold e4; rewrite env_get_set_other; [exact G3|discriminate]).
+  assert (L4: den e4 lhs = Ok (mkc sz a)) by (unfold e4; rewrite den_env_set; [exact L3|apply Ml; exact N3]).
+  (* 5. CF := lhs <u t0 (set_cf) *)
+  destruct (set_cf_den e4 sz a r lhs T Bl BT L4 (DT e4 G4)) as (cfe & Cf & D5).
+  pose proof (cf_sub_correct sz a b Hw Ha Hb) as CA. fold r in CA. rewrite CA in D5.
+  set (e5 := env_set e4 kCF (mkc 1 (X86.b2z (a <? b)))).
+  assert (G5: env_get e5 kT0 = Some (mkc sz r)) by (unfold e5; rewrite env_get_set_other; [exact G4|discriminate]).
+  (* 6. the destination write *)
+  assert (Ed5: env_get e5 (nd, None) = Some (mkc (wordsz m) xd)).
+  { unfold e5, e4, e3, e2, e1. rewrite !env_get_set_other; [exact Ed| | | | |]; unfold kT0, kZF, kSF, kOF, kCF, X86Lift.n_ZF, X86Lift.n_SF, X86Lift.n_OF, X86Lift.n_CF in *; congruence. }
+  assert (Hr': 0 <= r < 2 ^ shape_bits (wordsz m) sd) by (rewrite Bd; exact Hr).
+  assert (BT': e_bits T = shape_bits (wordsz m) sd) by (rewrite Bd; exact BT).
+  assert (DT5: den e5 T = Ok (mkc (shape_bits (wordsz m) sd) r)) by (rewrite Bd; exact (DT e5 G5)).
+  destruct (reg_set_correct e5 nd (wordsz m) sd xd T r Vd Hxd Hr' Ed5 BT' DT5) as (we & Se & Dw).
+  set (e6 := env_set e5 (nd, None) (mkc (wordsz m) (arch_write sd (wordsz m) xd r))).
+  eexists. exists (mkst e6 (st_mem st)).
+  split; [cbn; discriminate|].
+  split.
+  { fold t0 T. rewrite E1. cbn [bind]. rewrite Zf. cbn [bind]. rewrite Sf. cbn [bind]. rewrite Of. cbn [bind].
+    rewrite Cf. cbn [bind]. unfold ops_store. rewrite Xd, Se. cbn [bind]. reflexivity. }
+  split.
+  { cbn [exec_ops app].
+    rewrite (exec_assign st t0 _ _ D1). cbn [bind fst st_env st_mem]. fold en. rewrite KT. fold e1.
+    rewrite (exec_assign (mkst e1 _) _ _ _ Dz). cbn [bind fst st_env st_mem]. change (skey_of (flag_scalar X86Lift.n_ZF)) with kZF. fold e2.
+    rewrite (exec_assign (mkst e2 _) _ _ _ Ds). cbn [bind fst st_env st_mem]. change (skey_of (flag_scalar X86Lift.n_SF)) with kSF. fold e3.
+    rewrite (exec_assign (mkst e3 _) _ _ _ Do). cbn [bind fst st_env st_mem]. change (skey_of (flag_scalar X86Lift.n_OF)) with kOF. fold e4.
+    rewrite (exec_assign (mkst e4 _) _ _ _ D5). cbn [bind fst st_env st_mem]. change (skey_of (flag_scalar X86Lift.n_CF)) with kCF. fold e5.
+    rewrite (exec_assign (mkst e5 _) _ _ _ Dw). cbn [bind fst st_env st_mem]. reflexivity. }
+  split; [reflexivity|]. cbn [st_env].
+  split; [apply env_get_set_same|].
+  unfold e6, e5, e4, e3, e2.
+  split; [rewrite !env_get_set_other by (unfold kT0, kZF, kSF, kOF, kCF, X86Lift.n_ZF, X86Lift.n_SF, X86Lift.n_OF, X86Lift.n_CF in *; congruence); apply env_get_set_same|].
+  split; [rewrite !env_get_set_other by (unfold kT0, kZF, kSF, kOF, kCF, X86Lift.n_ZF, X86Lift.n_SF, X86Lift.n_OF, X86Lift.n_CF in *; congruence); apply env_get_set_same|].
+  split; [rewrite !env_get_set_other by (unfold kT0, kZF, kSF, kOF, kCF, X86Lift.n_ZF, X86Lift.n_SF, X86Lift.n_OF, X86Lift.n_CF in *; congruence); apply env_get_set_same|].
+  rewrite !env_get_set_other by (unfold kT0, kZF, kSF, kOF, kCF, X86Lift.n_ZF, X86Lift.n_SF, X86Lift.n_OF, X86Lift.n_CF in *; congruence). apply env_get_set_same.
+Qed.
+
+(* cmp dst, src: flags of the subtraction, nothing else changes *)
+Theorem cmp_reg_ops_correct st m sz dst nd sd xd lhs rhs b :
+  operand_shape m sz dst = Some (nd, sd) -> reg_name_ok nd = true -> width_ok sz ->
+  0 <= xd < 2 ^ wordsz m -> env_get (st_env st) (nd, None) = Some (mkc (wordsz m) xd) ->
+  opv m sz dst = Ok lhs ->
+  e_bits rhs = sz -> 0 <= b < 2 ^ sz -> den (st_env st) rhs = Ok (mkc sz b) -> clean rhs = true ->
+  let a := arch_read sd (wordsz m) xd in
+  let r := U sz (a - b) in
+  exists ops st',
+    lift_alu m ACmp sz dst (OImm 0) <> None /\
+    (e <- mk_bin Sub lhs rhs ;; zf <- set_zf e ;; sf <- set_sf e ;; of <- set_of e lhs rhs true ;; cf <- set_cf e lhs ;;
+     Ok [zf; sf; of; cf]) = Ok ops /\
+    exec_ops st ops = Ok st' /\
+    st_mem st' = st_mem st /\
+    env_get (st_env st') (nd, None) = Some (mkc (wordsz m) xd) /\
+    env_get (st_env st') kZF = Some (mkc 1 (X86.b2z (r =? 0))) /\
+    env_get (st_env st') kSF = Some (mkc 1 (X86.b2z (X86.msb sz r))) /\
+    env_get (st_env st') kOF = Some (mkc 1 (X86.b2z (X86.sovf sz (X86.Sg sz a - X86.Sg sz b)))) /\
+    env_get (st_env st') kCF = Some (mkc 1 (X86.b2z (a <? b))).
+Proof.
+  intros Od Nok Hw Hxd Ed Ol Br Hb Dr Cr a r.
+  destruct (operand_shape_xreg _ _ _ _ _ Od) as (Xd & Vd & Bd).
+  set (en := st_env st) in *.
+  assert (Gl: reg_get (xreg_of nd (wordsz m) sd) = Ok lhs).
+  { unfold opv in Ol. rewrite Xd in Ol. destruct dst; cbn [operand_shape] in Od; try discriminate; exact Ol. }
+  destruct (reg_get_correct en nd (wordsz m) sd xd Vd Hxd Ed) as (lhs' & Gl' & Dl). rewrite Gl in Gl'. inversion Gl'; subst lhs'. clear Gl'.
+  rewrite Bd in Dl. fold a in Dl.
+  assert (Bl: e_bits lhs = sz) by (rewrite <- Bd; eapply reg_get_bits; eassumption).
+  assert (Ha: 0 <= a < 2 ^ sz) by (unfold a; rewrite <- Bd; apply arch_read_range; assumption).
+  assert (Hr: 0 <= r < 2 ^ sz) by (unfold r, U; apply Z.mod_pos_bound; destruct Hw as [->|[->|[->| ->]]]; reflexivity).
+  assert (Ml: forall k, nd <> fst k -> mentions k lhs = false).
+  { intros k Hk. clear - Gl Hk Vd. destruct Vd as [[E|E] Hs]; rewrite E in Gl; destruct sd; try (specialize (Hs eq_refl); congruence);
+      cbv in Gl; inversion Gl; subst lhs; cbn [mentions]; unfold skey_of; cbn [sname sssa];
+      destruct (skey_eqb (nd, None) k) eqn:Q; try reflexivity; apply skey_eqb_eq in Q; subst k; cbn in Hk; congruence. }
+  assert (Nn: nd <> 53%N /\ nd <> X86Lift.n_ZF /\ nd <> X86Lift.n_SF /\ nd <> X86Lift.n_OF /\ nd <> X86Lift.n_CF).
+  { unfold reg_name_ok in Nok. unfold X86Lift.n_ZF, X86Lift.n_SF, X86Lift.n_OF, X86Lift.n_CF.
+    repeat split; intros ->; cbn in Nok; discriminate. }
+  destruct Nn as (N0 & N1 & N2 & N3 & N4).
+  unfold clean in Cr. apply negb_true_iff in Cr. repeat (apply orb_false_iff in Cr; destruct Cr as [Cr ?]).
+  set (T := EBin Sub lhs rhs).
+  assert (E1: mk_bin Sub lhs rhs = Ok T) by (unfold mk_bin; rewrite Bl, Br, Z.eqb_refl; reflexivity).
+  assert (BT: e_bits T = sz) by (unfold T; cbn [e_bits is_cmp]; exact Bl).
+  assert (DT: forall en', den en' lhs = Ok (mkc sz a) -> den en' rhs = Ok (mkc sz b) -> den en' T = Ok (mkc sz r)).
+  { intros en' A B. unfold T. cbn [den]. rewrite A, B. cbn [bind]. unfold sp_bin_c. cbn [cbits cval]. rewrite Z.eqb_refl. reflexivity. }
+  destruct (set_zf_den en sz r T BT (DT en Dl Dr)) as (zfe & Zf & Dz).
+  set (e2 := env_set en kZF (mkc 1 (X86.b2z (r =? 0)))).
+  assert (L2: den e2 lhs = Ok (mkc sz a)) by (unfold e2; rewrite den_env_set; [exact Dl|apply Ml; exact N1]).
+  assert (R2: den e2 rhs = Ok (mkc sz b)) by (unfold e2; rewrite den_env_set; assumption).
+  destruct (set_sf_den e2 sz a b r lhs rhs T Hw Ha Hb Hr Bl Br BT L2 R2 (DT e2 L2 R2)) as (sfe & Sf & Ds).
+  set (e3 := env_set e2 kSF (mkc 1 (X86.b2z (X86.msb sz r)))).
+  assert (L3: den e3 lhs = Ok (mkc sz a)) by (unfold e3; rewrite den_env_set; [exact L2|apply Ml; exact N2]).
+  assert (R3: den e3 rhs = Ok (mkc sz b)) by (unfold e3; rewrite den_env_set; assumption).
+  destruct (set_of_den e3 sz a b r lhs rhs T Hw Ha Hb Hr Bl Br BT L3 R3 (DT e3 L3 R3) true) as (ofe & Of & Do).
+  pose proof (of_sub_correct sz a b Hw Ha Hb) as OA. fold r in OA. rewrite OA in Do.
+  set (e4 := env_set e3 kOF (mkc 1 (X86.b2z (X86.sovf sz (X86.Sg sz a - X86.Sg sz b))))).
+  assert (L4: den e4 lhs = Ok (mkc sz a)) by (unfold e4; rewrite den_env_set; [exact L3|apply Ml; exact N3]).
+  assert (R4: den e4 rhs = Ok (mkc sz b)) by (unfold e4; rewrite den_env_set; assumption).
+  destruct (set_cf_den e4 sz a r lhs T Bl BT L4 (DT e4 L4 R4)) as (cfe & Cf & D5).
+  pose proof (cf_sub_correct sz a b Hw Ha Hb) as CA. fold r in CA. rewrite CA in D5.
+  set (e5 := env_set e4 kCF (mkc 1 (X86.b2z (a <? b)))).
+  eexists. exists (mkst e5 (st_mem st)).
+  split; [cbn; discriminate|].
+  split.
+  { rewrite E1. cbn [bind]. rewrite Zf. cbn [bind]. rewrite Sf. cbn [bind]. rewrite Of. cbn [bind]. rewrite Cf. cbn [bind]. reflexivity. }
+  split.
+  { cbn [exec_ops].
+    rewrite (exec_assign st _ _ _ Dz). cbn [bind fst st_env st_mem]. fold en. change (skey_of (flag_scalar X86Lift.n_ZF)) with kZF. fold e2.
+    rewrite (exec_assign (mkst e2 _) _ _ _ Ds). cbn [bind fst st_env st_mem]. change (skey_of (flag_scalar X86Lift.n_SF)) with kSF. fold e3.
+    rewrite (exec_assign (mkst e3 _) _ _ _ Do). cbn [bind fst st_env st_mem]. change (skey_of (flag_scalar X86Lift.n_OF)) with kOF. fold e4.
+    rewrite (exec_assign (mkst e4 _) _ _ _ D5). cbn [bind fst st_env st_mem]. change (skey_of (flag_scalar X86Lift.n_CF)) with kCF. fold e5.
+    reflexivity. }
+  split; [reflexivity|]. cbn [st_env]. unfold e5, e4, e3, e2.
+  split; [rewrite !env_get_set_other by (unfold kT0, kZF, kSF, kOF, kCF, X86Lift.n_ZF, X86Lift.n_SF, X86Lift.n_OF, X86Lift.n_CF in *; congruence); exact Ed|].
+  split; [rewrite !env_get_set_other by (unfold kT0, kZF, kSF, kOF, kCF, X86Lift.n_ZF, X86Lift.n_SF, X86Lift.n_OF, X86Lift.n_CF in *; congruence); apply env_get_set_same|].
+  split; [rewrite !env_get_set_other by (unfold kT0, kZF, kSF, kOF, kCF, X86Lift.n_ZF, X86Lift.n_SF, X86Lift.n_OF, X86Lift.n_CF in *; congruence); apply env_get_set_same|].
+  split; [rewrite !env_get_set_other by (unfold kT0, kZF, kSF, kOF, kCF, X86Lift.n_ZF, X86Lift.n_SF, X86Lift.n_OF, X86Lift.n_CF in *; congruence); apply env_get_set_same|].
+  apply env_get_set_same.
+Qed.
+
+Lemma lor_range a b w : 0 <= w -> 0 <= a < 2 ^ w -> 0 <= b < 2 ^ w -> 0 <= Z.lor a b < 2 ^ w.
+Proof.
+  intros Hw Ha Hb. assert (NN: 0 <= Z.lor a b) by (apply Z.lor_nonneg; lia). split; [exact NN|].
+  destruct (Z.eq_dec (Z.lor a b) 0) as [->|N]; [apply Z.pow_pos_nonneg; lia|].
+  assert (Wp: 0 < w).
+  { destruct (Z.eq_dec w 0) as [->|]; [|lia]. change (2 ^ 0) with 1 in *.
+    assert (a = 0) by lia. assert (b = 0) by lia. subst. cbn in N. contradiction. }
+  apply Z.log2_lt_pow2; [lia|]. rewrite Z.log2_lor by lia.
+  apply Z.max_lub_lt.
+  - destruct (Z.eq_dec a 0) as [->|Na]; [cbn; lia|apply Z.log2_lt_pow2; lia].
+  - destruct (Z.eq_dec b 0) as [->|Nb]; [cbn; lia|apply Z.log2_lt_pow2; lia].
+Qed.
+
+Definition logic_fun (op : binop) : option (Z -> Z -> Z) :=
+  match op with And => Some Z.land | Or => Some Z.lor | Xor => Some Z.lxor | _ => None end.
+
+(* and / or / xor dst, src (for xor: operand expressions not syntactically identical; `xor r, r` is lifted to
+   the constant 0): result, ZF, SF from the result, CF = OF = 0 *)
+Theorem logic_reg_ops_correct st m op f sz dst nd sd xd lhs rhs b :
+  logic_fun op = Some f ->
+  operand_shape m sz dst = Some (nd, sd) -> reg_name_ok nd = true -> width_ok sz ->
+  0 <= xd < 2 ^ wordsz m -> env_get (st_env st) (nd, None) = Some (mkc (wordsz m) xd) ->
+  opv m sz dst = Ok lhs ->
+  e_bits rhs = sz -> 0 <= b < 2 ^ sz -> den (st_env st) rhs = Ok (mkc sz b) -> clean rhs = true ->
+  let a := arch_read sd (wordsz m) xd in
+  let r := f a b in
+  exists ops st',
+    (e <- mk_bin op lhs rhs ;; zf <- set_zf (EScalar (temp_k 0 sz)) ;; sf <- set_sf (EScalar (temp_k 0 sz)) ;;
+     s <- ops_store m sz dst (EScalar (temp_k 0 sz)) ;;
+     Ok ([OAssign (temp_k 0 sz) e; zf; sf; assign_flag X86Lift.n_CF (expr_const 0 1); assign_flag X86Lift.n_OF (expr_const 0 1)] ++ s)) = Ok ops /\
+    exec_ops st ops = Ok st' /\
+    st_mem st' = st_mem st /\
+    env_get (st_env st') (nd, None) = Some (mkc (wordsz m) (arch_write sd (wordsz m) xd r)) /\
+    env_get (st_env st') kZF = Some (mkc 1 (X86.b2z (r =? 0))) /\
+    env_get (st_env st') kSF = Some (mkc 1 (X86.b2z (X86.msb sz r))) /\
+    env_get (st_env st') kOF = Some (mkc 1 0) /\
+    env_get (st_env st') kCF = Some (mkc 1 0).
+Proof.
+  intros Hf Od Nok Hw Hxd Ed Ol Br Hb Dr Cr a r.
+  destruct (operand_shape_xreg _ _ _ _ _ Od) as (Xd & Vd & Bd).
+  set (en := st_env st) in *.
+  assert (Gl: reg_get (xreg_of nd (wordsz m) sd) = Ok lhs).
+  { unfold opv in Ol. rewrite Xd in Ol. destruct dst; cbn [operand_shape] in Od; try discriminate; exact Ol. }
+  destruct (reg_get_correct en nd (wordsz m) sd xd Vd Hxd Ed) as (lhs' & Gl' & Dl). rewrite Gl in Gl'. inversion Gl'; subst lhs'. clear Gl'.
+  rewrite Bd in Dl. fold a in Dl.
+  assert (Bl: e_bits lhs = sz) by (rewrite <- Bd; eapply reg_get_bits; eassumption).
+  assert (Ha: 0 <= a < 2 ^ sz) by (unfold a; rewrite <- Bd; apply arch_read_range; assumption).
+  assert (W0: 0 <= sz) by (destruct Hw as [->|[->|[->| ->]]]; lia).
+  assert (Hr: 0 <= r < 2 ^ sz).
+  { unfold r. destruct op; try discriminate; inversion Hf; subst f;
+      [apply land_range; lia|apply lor_range; lia|apply lxor_range; lia]. }
+  assert (Ml: forall k, nd <> fst k -> mentions k lhs = false).
+  { intros k Hk. clear - Gl Hk Vd. destruct Vd as [[E|E] Hs]; rewrite E in Gl; destruct sd; try (specialize (Hs eq_refl); congruence);
+      cbv in Gl; inversion Gl; subst lhs; cbn [mentions]; unfold skey_of; cbn [sname sssa];
+      destruct (skey_eqb (nd, None) k) eqn:Q; try reflexivity; apply skey_eqb_eq in Q; subst k; cbn in Hk; congruence. }
+  assert (Nn: nd <> 53%N /\ nd <> X86Lift.n_ZF /\ nd <> X86Lift.n_SF /\ nd <> X86Lift.n_OF /\ nd <> X86Lift.n_CF).
+  { unfold reg_name_ok in Nok. unfold X86Lift.n_ZF, X86Lift.n_SF, X86Lift.n_OF, X86Lift.n_CF.
+    repeat split; intros ->; cbn in Nok; discriminate. }
+  destruct Nn as (N0 & N1 & N2 & N3 & N4).
+  unfold clean in Cr. apply negb_true_iff in Cr. repeat (apply orb_false_iff in Cr; destruct Cr as [Cr ?]).
+  set (t0 := temp_k 0 sz). set (T := EScalar t0).
+  assert (E1: mk_bin op lhs rhs = Ok (EBin op lhs rhs)) by (unfold mk_bin; rewrite Bl, Br, Z.eqb_refl; reflexivity).
+  assert (D1: den en (EBin op lhs rhs) = Ok (mkc sz r)).
+  { cbn [den]. rewrite Dl, Dr. cbn [bind]. unfold sp_bin_c. cbn [cbits cval]. rewrite Z.eqb_refl. cbn [negb].
+    unfold r. destruct op; try discriminate; inversion Hf; subst f; reflexivity. }
+  set (e1 := env_set en kT0 (mkc sz r)).
+  assert (KT: skey_of t0 = kT0) by reflexivity.
+  assert (BT: e_bits T = sz) by reflexivity.
+  assert (DT: forall en', env_get en' kT0 = Some (mkc sz r) -> den en' T = Ok (mkc sz r)).
+  { intros en' G. cbn [den T]. rewrite KT, G. cbn [cbits t0 temp_k sbits]. rewrite Z.eqb_refl. reflexivity. }
+  assert (G1: env_get e1 kT0 = Some (mkc sz r)) by apply env_get_set_same.
+  assert (L1: den e1 lhs = Ok (mkc sz a)) by (unfold e1; rewrite den_env_set; [exact Dl|apply Ml; exact N0]).
+  assert (R1: den e1 rhs = Ok (mkc sz b)) by (unfold e1; rewrite den_env_set; assumption).
+  destruct (set_zf_den e1 sz r T BT (DT e1 G1)) as (zfe & Zf & Dz).
+  set (e2 := env_set e1 kZF (mkc 1 (X86.b2z (r =? 0)))).
+  assert (G2: env_get e2 kT0 = Some (mkc sz r)) by (unfold e2; rewrite env_get_set_other; [exact G1|discriminate]).
+  assert (L2: den e2 lhs = Ok (mkc sz a)) by (unfold e2; rewrite den_env_set; [exact L1|apply Ml; exact N1]).
+  assert (R2: den e2 rhs = Ok (mkc sz b)) by (unfold e2; rewrite den_env_set; assumption).
+  destruct (set_sf_den e2 sz a b r lhs rhs T Hw Ha Hb Hr Bl Br BT L2 R2 (DT e2 G2)) as (sfe & Sf & Ds).
+  set (e3 := env_set e2 kSF (mkc 1 (X86.b2z (X86.msb sz r)))).
+  set (e4 := env_set e3 kCF (mkc 1 0)).
+  set (e5 := env_set e4 kOF (mkc 1 0)).
+  assert (G5: env_get e5 kT0 = Some (mkc sz r)).
+  { unfold e5, e4, e3. rewrite !env_get_set_other by discriminate. exact G2. }
+  assert (Ed5: env_get e5 (nd, None) = Some (mkc (wordsz m) xd)).
+  { unfold e5, e4, e3, e2, e1. rewrite !env_get_set_other; [exact Ed| | | | |]; unfold kT0, kZF, kSF, kOF, kCF, X86Lift.n_ZF, X86Lift.n_SF, X86Lift.n_OF, X86Lift.n_CF in *; congruence. }
+  assert (Hr': 0 <= r < 2 ^ shape_bits (wordsz m) sd) by (rewrite Bd; exact Hr).
+  assert (BT': e_bits T = shape_bits (wordsz m) sd) by (rewrite Bd; exact BT).
+  assert (DT5: den e5 T = Ok (mkc (shape_bits (wordsz m) sd) r)) by (rewrite Bd; exact (DT e5 G5)).
+  destruct (reg_set_correct e5 nd (wordsz m) sd xd T r Vd Hxd Hr' Ed5 BT' DT5) as (we & Se & Dw).
+  set (e6 := env_set e5 (nd, None) (mkc (wordsz m) (arch_write sd (wordsz m) xd r))).
+  assert (DC: forall en', den en' (expr_const 0 1) = Ok (mkc 1 0)) by (intros; reflexivity).
+  eexists. exists (mkst e6 (st_mem st)).
+  split.
+  { fold t0 T. rewrite E1. cbn [bind]. rewrite Zf. cbn [bind]. rewrite Sf. cbn [bind].
+    unfold ops_store. rewrite Xd, Se. cbn [bind]. reflexivity. }
+  split.
+  { cbn [exec_ops app].
+    rewrite (exec_assign st t0 _ _ D1). cbn [bind fst st_env st_mem]. fold en. rewrite KT. fold e1.
+    rewrite (exec_assign (mkst e1 _) _ _ _ Dz). cbn [bind fst st_env st_mem]. change (skey_of (flag_scalar X86Lift.n_ZF)) with kZF. fold e2.
+    rewrite (exec_assign (mkst e2 _) _ _ _ Ds). cbn [bind fst st_env st_mem]. change (skey_of (flag_scalar X86Lift.n_SF)) with kSF. fold e3.
+    unfold assign_flag.
+    rewrite (exec_assign (mkst e3 _) _ _ _ (DC e3)). cbn [bind fst st_env st_mem]. change (skey_of (flag_scalar X86Lift.n_CF)) with kCF. fold e4.
+    rewrite (exec_assign (mkst e4 _) _ _ _ (DC e4)). cbn [bind fst st_env st_mem]. change (skey_of (flag_scalar X86Lift.n_OF)) with kOF. fold e5.
+    rewrite (exec_assign (mkst e5 _) _ _ _ Dw). cbn [bind fst st_env st_mem]. reflexivity. }
+  split; [reflexivity|]. cbn [st_env].
+  split; [apply env_get_set_same|].
+  unfold e6, e5, e4, e3, e2.
+  split; [rewrite !env_get_set_other by (unfold kT0, kZF, kSF, kOF, kCF, X86Lift.n_ZF, X86Lift.n_SF, X86Lift.n_OF, X86Lift.n_CF in *; congruence); apply env_get_set_same|].
+  split; [rewrite !env_get_set_other by (unfold kT0, kZF, kSF, kOF, kCF, X86Lift.n_ZF, X86Lift.n_SF, X86Lift.n_OF, X86Lift.n_CF in *; congruence); apply env_get_set_same|].
+  split; [rewrite !env_get_set_other by (unfold kT0, kZF, kSF, kOF, kCF, X86Lift.n_ZF, X86Lift.n_SF, X86Lift.n_OF, X86Lift.n_CF in *; congruence); apply env_get_set_same|].
+  rewrite !env_get_set_other by (unfold kT0, kZF, kSF, kOF, kCF, X86Lift.n_ZF, X86Lift.n_SF, X86Lift.n_OF, X86Lift.n_CF in *; congruence). apply env_get_set_same.
+Qed.
+
+(* inc / dec dst: result, ZF, SF, OF as for add / sub with 1; CF is not assigned *)
+Theorem incdec_reg_ops_correct st m (sub : bool) sz dst nd sd xd lhs :
+  operand_shape m sz dst = Some (nd, sd) -> reg_name_ok nd = true -> width_ok sz ->
+  0 <= xd < 2 ^ wordsz m -> env_get (st_env st) (nd, None) = Some (mkc (wordsz m) xd) ->
+  opv m sz dst = Ok lhs ->
+  let a := arch_read sd (wordsz m) xd in
+  let r := if sub then U sz (a - 1) else U sz (a + 1) in
+  let op := if sub then Sub else Add in
+  exists ops st',
+    lift_un m (if sub then UDec else UInc) sz dst <> None /\
+    (e <- mk_bin op lhs (expr_const 1 (e_bits lhs)) ;;
+     zf <- set_zf e ;; sf <- set_sf e ;; of <- set_of e lhs (expr_const 1 (e_bits lhs)) sub ;;
+     s <- ops_store m sz dst e ;; Ok ([zf; sf; of] ++ s)) = Ok ops /\
+    exec_ops st ops = Ok st' /\
+    st_mem st' = st_mem st /\
+    env_get (st_env st') (nd, None) = Some (mkc (wordsz m) (arch_write sd (wordsz m) xd r)) /\
+    env_get (st_env st') kZF = Some (mkc 1 (X86.b2z (r =? 0))) /\
+    env_get (st_env st') kSF = Some (mkc 1 (X86.b2z (X86.msb sz r))) /\
+    env_get (st_env st') kOF =
+      Some (mkc 1 (X86.b2z (X86.sovf sz (if sub then X86.Sg sz a - X86.Sg sz 1 else X86.Sg sz a + X86.Sg sz 1)))) /\
+    env_get (st_env st') kCF = env_get (st_env st) kCF.
+Proof.
+  intros Od Nok Hw Hxd Ed Ol a r op.
+  destruct (operand_shape_xreg _ _ _ _ _ Od) as (Xd & Vd & Bd).
+  set (en := st_env st) in *.
+  assert (Gl: reg_get (xreg_of nd (wordsz m) sd) = Ok lhs).
+  { unfold opv in Ol. rewrite Xd in Ol. destruct dst; cbn [operand_shape] in Od; try discriminate; exact Ol. }
+  destruct (reg_get_correct en nd (wordsz m) sd xd Vd Hxd Ed) as (lhs' & Gl' & Dl). rewrite Gl in Gl'. inversion Gl'; subst lhs'. clear Gl'.
+  rewrite Bd in Dl. fold a in Dl.
+  assert (Bl: e_bits lhs = sz) by (rewrite <- Bd; eapply reg_get_bits; eassumption).
+  rewrite Bl.
+  assert (Ha: 0 <= a < 2 ^ sz) by (unfold a; rewrite <- Bd; apply arch_read_range; assumption).
+  assert (Hb: 0 <= 1 < 2 ^ sz) by (destruct Hw as [->|[->|[->| ->]]]; pows; lia).
+  assert (Hr: 0 <= r < 2 ^ sz) by (unfold r, U; destruct sub; apply Z.mod_pos_bound; destruct Hw as [->|[->|[->| ->]]]; reflexivity).
+  set (one := expr_const 1 sz).
+  assert (Bo: e_bits one = sz) by reflexivity.
+  assert (Do1: forall en', den en' one = Ok (mkc sz 1)).
+  { intros en'. unfold one, expr_const, new_big. cbn [den]. f_equal. f_equal. destruct Hw as [->|[->|[->| ->]]]; reflexivity. }
+  assert (Ml: forall k, nd <> fst k -> mentions k lhs = false).
+  { intros k Hk. clear - Gl Hk Vd. destruct Vd as [[E|E] Hs]; rewrite E in Gl; destruct sd; try (specialize (Hs eq_refl); congruence);
+      cbv in Gl; inversion Gl; subst lhs; cbn [mentions]; unfold skey_of; cbn [sname sssa];
+      destruct (skey_eqb (nd, None) k) eqn:Q; try reflexivity; apply skey_eqb_eq in Q; subst k; cbn in Hk; congruence. }
+  assert (Nn: nd <> X86Lift.n_ZF /\ nd <> X86Lift.n_SF /\ nd <> X86Lift.n_OF /\ nd <> X86Lift.n_CF).
+  { unfold reg_name_ok in Nok. unfold X86Lift.n_ZF, X86Lift.n_SF, X86Lift.n_OF, X86Lift.n_CF.
+    repeat split; intros ->; cbn in Nok; discriminate. }
+  destruct Nn as (N1 & N2 & N3 & N4).
+  set (T := EBin op lhs one).
+  assert (E1: mk_bin op lhs one = Ok T) by (unfold mk_bin; rewrite Bl, Bo, Z.eqb_refl; reflexivity).
+  assert (BT: e_bits T = sz) by (unfold T, op; destruct sub; cbn [e_bits is_cmp]; exact Bl).
+  assert (DT: forall en', den en' lhs = Ok (mkc sz a) -> den en' T = Ok (mkc sz r)).
+  { intros en' A. unfold T. cbn [den]. rewrite A, (Do1 en'). cbn [bind]. unfold sp_bin_c. cbn [cbits cval]. rewrite Z.eqb_refl.
+    unfold op, r. destruct sub; reflexivity. }
+  destruct (set_zf_den en sz r T BT (DT en Dl)) as (zfe & Zf & Dz).
+  set (e2 := env_set en kZF (mkc 1 (X86.b2z (r =? 0)))).
+  assert (L2: den e2 lhs = Ok (mkc sz a)) by (unfold e2; rewrite den_env_set; [exact Dl|apply Ml; exact N1]).
+  destruct (set_sf_den e2 sz a 1 r lhs one T Hw Ha Hb Hr Bl Bo BT L2 (Do1 e2) (DT e2 L2)) as (sfe & Sf & Ds).
+  set (e3 := env_set e2 kSF (mkc 1 (X86.b2z (X86.msb sz r)))).
+  assert (L3: den e3 lhs = Ok (mkc sz a)) by (unfold e3; rewrite den_env_set; [exact L2|apply Ml; exact N2]).
+  destruct (set_of_den e3 sz a 1 r lhs one T Hw Ha Hb Hr Bl Bo BT L3 (Do1 e3) (DT e3 L3) sub) as (ofe & Of & Do).
+  assert (OV: of_value sz a 1 r sub = X86.b2z (X86.sovf sz (if sub then X86.Sg sz a - X86.Sg sz 1 else X86.Sg sz a + X86.Sg sz 1))).
+  { unfold r. destruct sub; [apply of_sub_correct|apply of_add_correct]; assumption. }
+  rewrite OV in Do.
+  set (e4 := env_set e3 kOF (mkc 1 (X86.b2z (X86.sovf sz (if sub then X86.Sg sz a - X86.Sg sz 1 else X86.Sg sz a + X86.Sg sz 1))))).
+  assert (L4: den e4 lhs = Ok (mkc sz a)) by (unfold e4; rewrite den_env_set; [exact L3|apply Ml; exact N3]).
+  assert (Ed4: env_get e4 (nd, None) = Some (mkc (wordsz m) xd)).
+  { unfold e4, e3, e2. rewrite !env_get_set_other; [exact Ed| | |]; unfold kZF, kSF, kOF, X86Lift.n_ZF, X86Lift.n_SF, X86Lift.n_OF in *; congruence. }
+  assert (Hr': 0 <= r < 2 ^ shape_bits (wordsz m) sd) by (rewrite Bd; exact Hr).
+  assert (BT': e_bits T = shape_bits (wordsz m) sd) by (rewrite Bd; exact BT).
+  assert (DT4: den e4 T = Ok (mkc (shape_bits (wordsz m) sd) r)) by (rewrite Bd; exact (DT e4 L4)).
+  destruct (reg_set_correct e4 nd (wordsz m) sd xd T r Vd Hxd Hr' Ed4 BT' DT4) as (we & Se & Dw).
+  set (e5 := env_set e4 (nd, None) (mkc (wordsz m) (arch_write sd (wordsz m) xd r))).
+  eexists. exists (mkst e5 (st_mem st)).
+  split; [destruct sub; cbn; discriminate|].
+  split.
+  { fold one. rewrite E1. cbn [bind]. rewrite Zf. cbn [bind]. rewrite Sf. cbn [bind]. rewrite Of. cbn [bind].
+    unfold ops_store. rewrite Xd, Se. cbn [bind]. reflexivity. }
+  split.
+  { cbn [exec_ops app].
+    rewrite (exec_assign st _ _ _ Dz). cbn [bind fst st_env st_mem]. fold en. change (skey_of (flag_scalar X86Lift.n_ZF)) with kZF. fold e2.
+    rewrite (exec_assign (mkst e2 _) _ _ _ Ds). cbn [bind fst st_env st_mem]. change (skey_of (flag_scalar X86Lift.n_SF)) with kSF. fold e3.
+    rewrite (exec_assign (mkst e3 _) _ _ _ Do). cbn [bind fst st_env st_mem]. change (skey_of (flag_scalar X86Lift.n_OF)) with kOF. fold e4.
+    rewrite (exec_assign (mkst e4 _) _ _ _ Dw). cbn [bind fst st_env st_mem]. reflexivity. }
+  split; [reflexivity|]. cbn [st_env].
+  split; [apply env_get_set_same|].
+  unfold e5, e4, e3, e2.
+  split; [rewrite !env_get_set_other by (unfold kZF, kSF, kOF, kCF, X86Lift.n_ZF, X86Lift.n_SF, X86Lift.n_OF, X86Lift.n_CF in *; congruence); apply env_get_set_same|].
+  split; [rewrite !env_get_set_other by (unfold kZF, kSF, kOF, kCF, X86Lift.n_ZF, X86Lift.n_SF, X86Lift.n_OF, X86Lift.n_CF in *; congruence); apply env_get_set_same|].
+  split; [rewrite !env_get_set_other by (unfold kZF, kSF, kOF, kCF, X86Lift.n_ZF, X86Lift.n_SF, X86Lift.n_OF, X86Lift.n_CF in *; congruence); apply env_get_set_same|].
+  rewrite !env_get_set_other by (unfold kZF, kSF, kOF, kCF, X86Lift.n_ZF, X86Lift.n_SF, X86Lift.n_OF, X86Lift.n_CF in *; congruence). reflexivity.
+Qed.
